@@ -7,8 +7,33 @@ def _digest(interp, selfv, args, kwargs):
     return Opaque("uuid")
 
 
+def _seq(interp, selfv, args, kwargs):
+    v = args[0]
+    return v if isinstance(v, str) else str(v)
+
+
+def _make_parent(interp, selfv, args, kwargs):
+    obj = args[0]
+    if isinstance(obj, str):
+        return interp.apply(ClassTok("Parent"), [], {"id": obj}, None, 0)
+    if isinstance(obj, Obj) and obj.cls_name == "Parent":
+        return obj
+    if isinstance(obj, Obj) and obj.cls_name == "Sequence":
+        return interp.apply(ClassTok("Parent"), [], {"sequence": obj}, None, 0)
+    if isinstance(obj, Obj) and obj.cls_name in ("SingleInterval", "CompoundInterval", "_EmptyLocation"):
+        return interp.apply(ClassTok("Parent"), [], {"location": obj}, None, 0)
+    from .interp import EnumVal
+    if isinstance(obj, EnumVal) and obj.cls == "Strand":
+        return interp.apply(ClassTok("Parent"), [], {"strand": obj}, None, 0)
+    raise Raised("TypeError", "make_parent")
+
+
 def gene_interp(repo, **kw):
     it = loc_interp(repo, **kw)
+    it.hooks["Seq"] = _seq
+    it.hooks["make_parent"] = _make_parent
+    it.hooks["parent:make_parent"] = _make_parent
+    it.hooks["inscripta.biocantor.parent.make_parent"] = _make_parent
     it.hooks["util.hashing:digest_object"] = _digest
     it.hooks["digest_object"] = _digest
     return it
@@ -26,3 +51,29 @@ def mk_feature(it, blocks, strand, **kw):
     args = dict(interval_starts=[b[0] for b in blocks], interval_ends=[b[1] for b in blocks], strand=strand)
     args.update(kw)
     return it.apply(ClassTok("FeatureInterval"), [], args, None, 0)
+
+
+def mk_parent(it, **kw):
+    return it.apply(ClassTok("Parent"), [], kw, None, 0)
+
+
+def mk_sequence(it, data, alphabet="NT_EXTENDED_GAPPED", **kw):
+    return it.apply(ClassTok("Sequence"), [data, it.enum("Alphabet")[alphabet]], kw, None, 0)
+
+
+def chrom_parent(it, seq, seq_id="chr1", alphabet="NT_EXTENDED_GAPPED"):
+    """Parent(id, sequence=Sequence(seq, alphabet, type=CHROMOSOME)) - what io.parser.seq_to_parent builds"""
+    st = it.enum("SequenceType")
+    return mk_parent(it, id=seq_id, sequence=mk_sequence(it, seq, alphabet, id=seq_id, type=st["CHROMOSOME"]))
+
+
+def chunk_parent(it, genome, start, end, seq_id="chr1", alphabet="NT_EXTENDED_GAPPED"):
+    """what io.parser.seq_chunk_to_parent builds for genome[start:end]"""
+    from .lockernel import mk_single
+    st = it.enum("SequenceType")
+    S = it.enum("Strand")
+    chrom = mk_parent(it, id=seq_id, sequence_type=st["CHROMOSOME"])
+    loc = it.apply(ClassTok("SingleInterval"), [start, end, S["PLUS"]], {"parent": chrom}, None, 0)
+    seq = mk_sequence(it, genome[start:end], alphabet, id=f"{seq_id}:{start}-{end}", type=st["SEQUENCE_CHUNK"],
+                      parent=mk_parent(it, location=loc))
+    return mk_parent(it, id=f"{seq_id}:{start}-{end}", sequence=seq)
